@@ -81,8 +81,22 @@ def hyp_cases(draw, tier):
     n = 40 if tier == "quick" else 80
     typed = draw(st.sampled_from([False, False, True]))
     flavour = draw(st.sampled_from(["str", "str", "str", "int", "tuple", "dc", "dictwrap", "obj_cb", "obj_sub", "dict_explicit", "obj_fwd"]))
-    case = draw(gen_ops.histories(typed=typed, max_ops=n, fresh=flavour != "str"))
+    case = draw(gen_ops.histories(typed=typed, max_ops=n, fresh=flavour != "str", big=8))
     case["flavour"] = flavour
+    return case
+
+
+BIG_KINDS = ["filter"] * 3 + ["remove"] * 2 + ["move"] * 2 + ["add_tree", "copy_to", "sort", "remove_children", "add_node", "add", "prepend_sibling",
+                                                              "set_data", "del", "shortcut_tree", "add_own_tree"]
+
+
+@st.composite
+def big_cases(draw, tier):
+    """one to three operations on a BIG tree (a child list of 11..300 nodes, a clone group of that size, more than
+    256 nodes): where a bulk / chunked / "fast path" variant of an operation would start to differ"""
+    typed = draw(st.sampled_from([False, False, True]))
+    case = draw(gen_ops.histories(typed=typed, max_ops=3, min_ops=1, kinds=BIG_KINDS, big=1))
+    case["flavour"] = draw(st.sampled_from(["str", "str", "obj_cb"]))
     return case
 
 
@@ -180,4 +194,5 @@ PARTS = [
     Part("single-steps", run, enum=single_step_cases),
     Part("histories", run, strategy=hyp_cases, n={"quick": 1500, "thorough": 200000}),
     Part("two-step-clones", run, enum=enum_cases),
+    Part("big-trees", run, strategy=big_cases, n={"quick": 400, "thorough": 20000}),
 ]
